@@ -159,7 +159,9 @@ func (d *dialer) pipeClosed() {
 	// peer refuses to accept our protocol.  Injecting at least a little
 	// delay should help.
 	d.Lock()
-	time.AfterFunc(d.reconnTime, d.redial)
+	if !d.closed {
+		d.redialer = time.AfterFunc(d.reconnTime, d.redial)
+	}
 	d.Unlock()
 }
 
